@@ -74,8 +74,9 @@ func (wrapper EpochsHooksWrapper) AfterEpochEnd(
 			taskInfo, err := wrapper.keeper.GetTaskInfo(ctx, strconv.FormatUint(taskID, 10), taskAddr)
 			if err != nil {
 				ctx.Logger().Error("Failed to update task result statistics,GetTaskInfo call failed!", "task result", taskAddr, "error", err)
-				// Handle the error gracefully, continue to the next
-				// continue
+				// Handle the error gracefully, continue to the next:
+				// taskInfo is nil here (e.g. no result of the group carries a signature)
+				continue
 			}
 			diff := types.Difference(taskInfo.OptInOperators, signedOperatorList)
 			taskInfo.SignedOperators = signedOperatorList
@@ -83,8 +84,13 @@ func (wrapper EpochsHooksWrapper) AfterEpochEnd(
 			taskInfo.OperatorActivePower = &types.OperatorActivePowerList{OperatorPowerList: operatorPowers}
 			// Calculate actual threshold
 			taskPowerTotal, err := wrapper.keeper.operatorKeeper.GetAVSUSDValue(ctx, avsAddr)
+			if err != nil {
+				// taskPowerTotal is a nil Dec here; using it below would panic in BeginBlock
+				ctx.Logger().Error("Failed to update task result statistics,GetAVSUSDValue call failed!", "task result", taskAddr, "error", err)
+				continue
+			}
 
-			if err != nil || taskPowerTotal.IsZero() || operatorPowerTotal.IsZero() {
+			if taskPowerTotal.IsZero() || operatorPowerTotal.IsZero() {
 				ctx.Logger().Error("Failed to update task result statistics,GetAVSUSDValue call failed!", "task result", taskAddr, "error", err)
 				// Handle the error gracefully, continue to the next
 				// continue
